@@ -91,6 +91,8 @@ fn battery_rules() -> Vec<String> {
         "||1.2.3.4^".to_string(),
         "||github.io^$third-party".to_string(),
         "||foo.bar^$removeparam=x".to_string(),
+        "$csp=script-src 'none'".to_string(),
+        "||example.com^$csp=worker-src 'none'".to_string(),
     ]
 }
 
@@ -183,7 +185,7 @@ fn check_plain(e: &adblock::Engine, r: &mut Rng) -> Out {
     let a = ask(e, &rq);
     if !rq.is_supported {
         let b = e.check_network_request(&rq);
-        if b.matched || b.redirect.is_some() || b.rewritten_url.is_some() || b.exception.is_some() || b.important {
+        if b.matched || b.redirect.is_some() || b.rewritten_url.is_some() || b.exception.is_some() || b.important || a.csp.is_some() {
             out.viol.push(("C12:unsupported-scheme-request-was-matched".into(), detail("", &rq)));
         }
     }
